@@ -120,6 +120,9 @@ def execute(sc):
                 key = 'disc'
             elif name[:-1] == prefix + ver and rc.comp_parts(name[-1])[0] == 0x32:
                 key = int.from_bytes(rc.comp_parts(name[-1])[1], 'big')
+                if name[-1] != SEG(key):
+                    # the network matches names octet by octet: a segment number in another width names no published packet
+                    key = ('other', tuple(name))
             else:
                 key = ('other', tuple(name))
             R['requests'][key] = R['requests'].get(key, 0) + 1
@@ -198,7 +201,7 @@ def execute(sc):
         try:
             async for c in segment_fetcher(the_app, name_arg, timeout=100, retry_times=sc['retry'], **kw):
                 R['yielded'].append(None if c is None else bytes(c))
-                if len(R['yielded']) > 50:
+                if len(R['yielded']) > max(50, sc['n'] + 20):
                     R['outcome'] = 'runaway'
                     break
             if R['outcome'] is None:
@@ -575,6 +578,12 @@ def run(ctx):
         scripts = [s for i, s in enumerate(scripts) if i % ctx.nshards == ctx.shard]
     for _ in range(ctx.n(900, 200000)):
         scripts.append(gen_script(rng))
+    # long objects: segment numbers cross the one-octet (and, thorough tier, the two-octet) boundary of their encoding
+    for n_long in ((130, 300) if ctx.quick else ((130, 300, 66000) if ctx.shard == 0 else ())):
+        sc = gen_script(rng)
+        sc.update(n=n_long, disc_answer=rng.choice([0, 0, 129]), loss={'128': 1, '255': 1} if n_long < 1000 else {}, fault=None, marker=rng.choice(['every', 'last', 'estimate']))
+        scripts.append(sc)
+        ctx.event('object-longer-than-128-segments')
     for sc in scripts:
         R, S = execute(sc)
         judge(ctx, sc, R, S)
@@ -589,7 +598,7 @@ def run(ctx):
     for sc in templates + [gen_concurrent(rng) for _ in range(ctx.n(250, 80000))]:
         obs, S = execute_concurrent(sc)
         judge_concurrent(ctx, sc, obs, S)
-    for k in ('marker-estimate', 'marker-other-type', 'marker-early-only', 'freshness-None', 'freshness-0', 'outcome-done', 'outcome-timeout', 'outcome-nack', 'outcome-valfail', 'concurrent-fetch', 'concurrent-outcome-done', 'concurrent-outcome-timeout',
+    for k in ('object-longer-than-128-segments', 'marker-estimate', 'marker-other-type', 'marker-early-only', 'freshness-None', 'freshness-0', 'outcome-done', 'outcome-timeout', 'outcome-nack', 'outcome-valfail', 'concurrent-fetch', 'concurrent-outcome-done', 'concurrent-outcome-timeout',
               'concurrent-data-shared-between-fetchers', 'one-shot-name-with-lost-discovery', 'validator-via-app-default', 'content-type-omitted', 'validator-form-lambda', 'validator-form-object', 'validator-form-partial'):
         ctx.need_event(k)
     ctx.assumptions = ['an object without any final-block marker is outside the statement', 'the legacy front-end is the one segment_fetcher uses']
